@@ -38,6 +38,21 @@ class CallableHelper:
         return "called"
 
 
+class Journal:
+    """not exposed; referenced by plain class attributes of the targets"""
+
+    def __init__(self, *a, **k):
+        log("Journal.__init__")
+
+
+class Auditor:
+    """not exposed; a callable helper object held in a plain class attribute"""
+
+    def __call__(self, *a, **k):
+        log("Auditor.__call__")
+        return "audit"
+
+
 class Base:
     base_plain = 11
 
@@ -139,6 +154,18 @@ class PerMember(Base):
         log("hidden.set")
         self.state = v
 
+    # only the setter function carries the mark: the property is neither advertised nor readable, so it is not writable
+    @property
+    def valve(self):
+        log("valve.get")
+        return 15
+
+    @valve.setter
+    @expose
+    def valve(self, v):
+        log("valve.set")
+        self.state = v
+
 
 PerMember._private._pyroExposed = True       # even a (wrongly) marked private member must stay unreachable
 
@@ -156,6 +183,8 @@ setattr(PerMember, "____", _all_underscores)    # a name of underscores only has
 class WholeClass(Base):
     """the class itself is exposed: its own members, not the inherited unexposed ones"""
     plain = 43
+    journal_cls = Journal        # plain class attributes whose values happen to be callable: a class reference ...
+    audit = Auditor()            # ... and a callable helper object; neither is a method or property of the class
 
     def __init__(self):
         self.state = 0
@@ -198,6 +227,20 @@ class WholeClass(Base):
         return 26
 
 
+class SubOfWhole(WholeClass):
+    """not exposed itself; replaces the getter of an inherited exposed property by its own (unmarked) one: the property
+    object in this class has an unexposed getter and the base's marked setter -> not advertised, not readable, not writable"""
+
+    @WholeClass.wprop.getter
+    def wprop(self):
+        log("sub.wprop.get")
+        return 27
+
+    def subm(self, *a, **k):
+        log("subm")
+        return 28
+
+
 class NotExposed(Base):
     def __init__(self):
         self.state = 0
@@ -224,6 +267,11 @@ SHAPES = {
         "get": {"wprop": "wprop.get", "base_prop": "base_prop.get"},
         "set": {"wprop": "wprop.set", "base_prop": "base_prop.set"},
         "oneway": {"wow"}}),
+    "SubOfWhole": (SubOfWhole, {
+        "call": {"w": "w", "wow": "wow", "base_exposed": "base_exposed"},
+        "get": {"base_prop": "base_prop.get"},
+        "set": {"base_prop": "base_prop.set"},
+        "oneway": {"wow"}}),
     "NotExposed": (NotExposed, {
         "call": {"base_exposed": "base_exposed"},
         "get": {"base_prop": "base_prop.get"},
@@ -231,7 +279,7 @@ SHAPES = {
         "oneway": set()}),
 }
 
-UNEXPOSED_PROPERTIES = {"PerMember": ["hidden", "bhidden"], "WholeClass": ["bhidden"],
+UNEXPOSED_PROPERTIES = {"PerMember": ["hidden", "bhidden", "valve"], "WholeClass": ["bhidden"], "SubOfWhole": ["bhidden", "wprop"],
                         "NotExposed": ["nprop", "bhidden"]}
 NONSTRING_NAMES = [None, 5, b"m", ("m",), 1.5]
 KINDS = ["call", "batch", "oneway", "get", "set"]
@@ -402,10 +450,10 @@ SPECS = [
          native_patch=env.native_env, reset=_reset,
          desc="is_private_attribute on a symbolic name (any code points, length 0..L) against the rule of the statement: leading underscore unless a proper dunder name (non-empty core), plus the reserved dunder list"),
     Spec("request", h_request,
-         {"quick": {"L": 12, "SHAPES": ["PerMember", "WholeClass", "NotExposed"]},
-          "thorough": {"L": 20, "SHAPES": ["PerMember", "WholeClass", "NotExposed"]}},
+         {"quick": {"L": 12, "SHAPES": ["PerMember", "WholeClass", "SubOfWhole", "NotExposed"]},
+          "thorough": {"L": 20, "SHAPES": ["PerMember", "WholeClass", "SubOfWhole", "NotExposed"]}},
          covers=["ran", "refused", "served:call", "served:batch", "served:oneway", "served:get", "served:set",
                  "check:only-exposed-members-run", "check:refusal-is-one-error-reply"],
          native_patch=env.native_env, reset=_reset,
-         desc="one INVOKE request with a symbolic member name (any code points, or a non-string) against three class shapes, five request kinds, arbitrary other flag bits, through the real handleRequest"),
+         desc="one INVOKE request with a symbolic member name (any code points, or a non-string) against four class shapes (per-member exposure, class-level exposure with plain callable class attributes, an unexposed subclass re-using an exposed property's setter, no exposure), five request kinds, arbitrary other flag bits, through the real handleRequest"),
 ]
